@@ -99,4 +99,9 @@ CHECKS = {
         quick=dict(groups=[G("stateful", "^TestC17Stateful$", 150, 8), E("exhaustive", "^TestC17Exhaustive$", 8, env=dict(VERIF_C17_MAXLEN=4))]),
         thorough=dict(groups=[G("stateful", "^TestC17Stateful$", 3000, 16), E("exhaustive", "^TestC17Exhaustive$", 16, env=dict(VERIF_C17_MAXLEN=5))]),
     ),
+    "C19": dict(
+        title="GAS handled by the governance contracts is accounted exactly",
+        quick=dict(groups=[G("main", "^TestC19Main$", 150, 6), E("emit", "^TestC19Emit$", 6), G("emit-random", "^TestC19EmitRandom$", 60, 4)]),
+        thorough=dict(groups=[G("main", "^TestC19Main$", 3000, 8), E("emit", "^TestC19Emit$", 4), G("emit-random", "^TestC19EmitRandom$", 1500, 4)]),
+    ),
 }
